@@ -570,7 +570,7 @@ fn run_batch(ctx: &Ctx, sub: &str, class: &str, items: &[(Kind, String)]) {
         }
         if nt {
             ctx.nontrivial(hash_of(&(k, s)));
-            if ctx.samples_len() < 8 && s.len() > 1 && hash_of(s) % 97 == 0 {
+            if ctx.samples_len() < 8 && s.len() > 1 && (ctx.samples_len() < 2 || hash_of(s) % 97 == 0) {
                 ctx.sample(8, || case_json(*k, s));
             }
         }
@@ -638,7 +638,7 @@ pub fn run(ctx: &Ctx) {
                 }
                 if nontrivial(k, s) {
                     ctx.nontrivial(hash_of(&(k, s)));
-                    if hash_of(s) % 4001 == 0 {
+                    if (ctx.samples_len() < 2 || hash_of(s) % 4001 == 0) {
                         ctx.sample(12, || case_json(k, s));
                     }
                 }
